@@ -3,6 +3,7 @@ package props
 import (
 	"fmt"
 	"reflect"
+	"sort"
 	"strings"
 
 	"github.com/dave/dst"
@@ -201,6 +202,15 @@ func deepCompare(a, b reflect.Value, path string, wantNilObj bool) string {
 		if a.Len() != b.Len() {
 			return fmt.Sprintf("%s: map length %d vs %d", path, a.Len(), b.Len())
 		}
+		for _, k := range sortedMapKeys(a) {
+			bv := b.MapIndex(k)
+			if !bv.IsValid() {
+				return fmt.Sprintf("%s: key %v missing in the copy", path, k)
+			}
+			if d := deepCompare(a.MapIndex(k), bv, fmt.Sprintf("%s{%v}", path, k), wantNilObj); d != "" {
+				return d
+			}
+		}
 		return ""
 	default:
 		if a.Interface() != b.Interface() {
@@ -241,8 +251,17 @@ func storage(v reflect.Value, path string, out map[uintptr]string) {
 	case reflect.Map:
 		if !v.IsNil() {
 			out[v.Pointer()] = path + "{}"
+			for _, k := range sortedMapKeys(v) {
+				storage(v.MapIndex(k), fmt.Sprintf("%s{%v}", path, k), out)
+			}
 		}
 	}
+}
+
+func sortedMapKeys(v reflect.Value) []reflect.Value {
+	keys := v.MapKeys()
+	sort.Slice(keys, func(i, j int) bool { return fmt.Sprint(keys[i]) < fmt.Sprint(keys[j]) })
+	return keys
 }
 
 func trimDst(s string) string { return strings.ReplaceAll(s, "*dst.", "") }
